@@ -46,6 +46,11 @@ def make_pair(d):
         base = gen.broadband(d["seed"], shape, sigma=d["bsigma"], window=0.3)
         tmpl = base.astype(np.float32)
         img = gen.fourier_shift(base, disp).astype(np.float32)
+    bg = float(d.get("bg", 0.0))
+    if bg:
+        # a uniform grey background under both the template and its displaced copy
+        tmpl = (tmpl + bg).astype(np.float32)
+        img = (img + bg).astype(np.float32)
     return tmpl, img
 
 
@@ -108,7 +113,7 @@ def judge(d):
             res = model.align(img, ms, quaternion=quat if tilt is not None else None)
             fitted = None
     tag = (f"{d['model']} {d['api']} class {d['tclass']} shape={tuple(d['shape'])} max_shifts={ms} d={disp.tolist()} "
-           f"mask={d['mask']} cutoff={d['cutoff']} tilt={d['tilt']}")
+           f"mask={d['mask']} cutoff={d['cutoff']} tilt={d['tilt']} bg={d.get('bg', 0.0)}")
     shift = np.asarray(res.shift, dtype=np.float64)
     if shift.shape != (3,) or not np.all(np.isfinite(shift)):
         out.append(viol("C04/shift-invalid", f"{tag}: shift={res.shift}"))
@@ -130,7 +135,7 @@ def judge(d):
         out.append(viol("C04/quat-not-identity", f"{tag}: quat={res.quat}"))
     # sign convention: shifting the sub-volume by -shift superimposes it on the template
     if err <= tol + 1e-6 and tol == 0.1 and d["tclass"] == "A":
-        back = ndi.shift(img.astype(np.float64), -shift, order=3, mode="constant", cval=0.0)
+        back = ndi.shift(img.astype(np.float64), -shift, order=3, mode="constant", cval=float(d.get("bg", 0.0)))
         cc = ref.pearson(back, tmpl)
         if not cc >= 0.98:
             out.append(viol("C04/sign-convention", f"{tag}: corr(shift(img, -shift), template) = {cc:.3f}"))
@@ -234,7 +239,10 @@ def cases(draw, models=MODELS):
            "mask": mask, "mask_r": draw(st.sampled_from([0.0, 0.5, 1.5])),
            "cutoff": draw(st.sampled_from([None, None, 0.3, 0.5, 0.8])),
            "tilt": tilt, "tilt_as": tilt_as, "rot": draw(gen.rotvecs()),
-           "api": draw(st.sampled_from(["align", "align", "fit"]))}
+           "api": draw(st.sampled_from(["align", "align", "fit"])),
+           # grey background only for the real-space models (ZNCC removes the mean, NCC pads with it); PCC/FSC work on
+           # float32 spectra whose DC term would dominate the precision budget
+           "bg": draw(st.sampled_from([0.0, 0.0, 5.0, -2.0])) if (mask == "none" and model in ("ZNCC", "NCC")) else 0.0}
     out.update(extra)
     return out
 
@@ -250,7 +258,7 @@ def labels(d):
     return gen.parity_class(d["shape"]) + [f"model:{d['model']}", f"class:{d['tclass']}", f"d:{d['dclass']}",
                                            f"mask:{d['mask']}", "cutoff:" + ("none" if d["cutoff"] is None else "set"),
                                            "tilt:" + ("none" if d["tilt"] is None else d["tilt_as"] + "-" + d["tilt"]["axis"]),
-                                           f"api:{d['api']}"]
+                                           f"api:{d['api']}", "background:grey" if d.get("bg") else "background:zero"]
 
 
 def engines():
